@@ -308,7 +308,7 @@ def run (ctx):
       ctx.ob('R-AGREE', m_, "`%s` receives the request being served" % norm(c)[:50], good, "ofp=ofp" if good else
              "%s has the request in `ofp` but calls %s with ofp=%s: an error raised while the helper works (bad action, bad port) is sent with xid 0 and without the request's bytes - "
              "the controller cannot match it to its request" % (m_.name, cal.name, norm(a) if a is not None else 'omitted (default None)'), (swmod, c), 'D3')
-  ctx.floor('request hand-over sites', n_thr, 4)
+  ctx.floor('request hand-over sites', n_thr, 2)
   # ---- D4 synchronous ------------------------------------------------------
   for f in scan + [sw.find_method('rx_message'), se, sw.find_method('send')]:
     if f is None: continue
